@@ -119,6 +119,36 @@ def tools_hash():
     return _hash_files(paths)
 
 
+def array_recursive(items):
+    """types from which a dependency cycle through a counted array (`t x<>`) is reachable: nested hostile counts make every level of
+    such a type reserve for the whole remaining input (finding K11)"""
+    edges = {}
+    for it in items:
+        k = it["k"]
+        if k == "struct":
+            edges[it["name"]] = [(f["ty"], bool(f.get("arr")) and f["arr"][0] == "var") for f in it["fields"]]
+        elif k == "typedef":
+            a = it.get("arr")
+            edges[it["name"]] = [(it["ty"], bool(a) and a[0] == "var")]
+        elif k == "union":
+            edges[it["name"]] = [(arm["body"]["ty"], False) for arm in it["arms"] if isinstance(arm.get("body"), dict)]
+    def reach(src):
+        seen, todo = set(), [src]
+        while todo:
+            x = todo.pop()
+            for y, _ in edges.get(x, []):
+                if y not in seen:
+                    seen.add(y)
+                    todo.append(y)
+        return seen
+    on_cycle = set()
+    for a, es in edges.items():
+        for b, isarr in es:
+            if isarr and b in edges and (a == b or a in reach(b)):
+                on_cycle.add(a)
+    return sorted(t for t in edges if t in on_cycle or reach(t) & on_cycle)
+
+
 def type_names(ast_types_reply):
     # "ok a,b,c"
     return [t for t in ast_types_reply[3:].split(",") if t] if ast_types_reply.startswith("ok") else []
@@ -203,7 +233,7 @@ def targeted(b, marks, rng):
 
 def _campaign(rng, tier, nspecs, nvals, opts, tag, with_clone):
     import specgen
-    cases_spec = [{"text": specgen.render(items), "meta": {"flags": [], "catalog": ctag}} for ctag, items in specgen.catalog()]
+    cases_spec = [{"text": specgen.render(items), "items": items, "meta": {"flags": [], "catalog": ctag}} for ctag, items in specgen.catalog()]
     cases_spec += t3.corpus_supported(nspecs, rng, variants=1, opts=opts)
     texts = [c["text"] for c in cases_spec]
     batch = Batch(texts, with_clone=with_clone, tag=tag)
@@ -294,13 +324,21 @@ def _campaign(rng, tier, nspecs, nvals, opts, tag, with_clone):
                 ws = b"".join(rng.choice(BOUNDARY_WORDS + [4, 5, 8, 9]).to_bytes(4, "big") if rng.chance(3, 4) else bytes(rng.below(256) for _ in range(4)) for _ in range(n))
                 ws += bytes(rng.below(256) for _ in range(rng.below(4)))
                 add(k, ty, 0, ws, "random")
+    # one word repeated: every count, length, marker and discriminant set to the same hostile value at every nesting level
+    for k, rep in enumerate(loaded):
+        if batch.status.get(str(k)) != "ok":
+            continue
+        for ty in type_names(rep):
+            for word, nwords in ((0xFFFFFFFF, 16), (0xFFFFFFFF, 256), (1, 256), (2, 64)) + (((0xFFFFFFFF, 2048), (3, 1024)) if tier != "quick" else ()):
+                add(k, ty, 0, word.to_bytes(4, "big") * nwords, "nested")
     impl = batch.run(reqs)
     model = run_driver(spec_lines + reqs)[len(spec_lines):]
     sizes = batch.run(["sizes %d" % k for k in range(len(texts))])
     for m, i, mo in zip(meta, impl, model):
         m["impl"], m["model"] = i, mo
     return {"cases": meta, "specs": [{"text": c["text"], "flags": c["meta"]["flags"], "status": batch.status.get(str(k), "?"),
-                                      "compile_errors": batch.compile_errors.get(str(k)), "loaded": loaded[k], "sizes": sizes[k]}
+                                      "compile_errors": batch.compile_errors.get(str(k)), "loaded": loaded[k], "sizes": sizes[k],
+                                      "arrrec": array_recursive(c.get("items") or [])}
                                      for k, c in enumerate(cases_spec)]}
 
 
